@@ -16,12 +16,14 @@ for l in open(LOG):
             lab=re.sub(r'@\S*/(src|harness)/','@',lab)[:110]
     rows.setdefault(mid,[]).append((chk,rc,lab))
 out=["### 11.5 Seeded changes and which checks catch them\n",
-"40 changes to vnmakarov/yaep were written by independent sub-agents that saw only one property's text and a",
-"scratch worktree (three rounds; duplicates of an already kept change were dropped).  I confirmed each in a scratch",
-"worktree of /repo HEAD: patch applies, the 120-test suite passes with it, the agent's demonstration exits 0 without",
-"and non-zero with the patch.  They are kept under seeded/<id>/ (patch.diff, demo.c, meta.json).  `bin/run_seeded.sh",
-"<id> <check>...` applies one to /repo, runs the checks and reverts; the table is the quick tier on the final tree",
-"(run through bin/run_seeded_wt.sh, the same on a scratch worktree via YAEP_REPO).\n",
+"%d changes to vnmakarov/yaep were written by independent sub-agents that saw only one property's text and a" % len(rows),
+"scratch worktree (five rounds; from round 4 on the agents were told that the obvious spots had been tried; exact",
+"duplicates of a kept change were dropped, independent re-inventions with their own demonstration were kept).  I",
+"confirmed each in a scratch worktree of /repo HEAD: patch applies, the 120-test suite passes with it, the agent's",
+"demonstration exits 0 without and non-zero with the patch.  They are kept under seeded/<id>/ (patch.diff, demo.c,",
+"meta.json).  `bin/sweep_seeded.sh` runs every change against its home check in a scratch worktree (YAEP_REPO) and,",
+"when that exits 0, against the checks named in its meta.json `also_checks`; `bin/mk_seeded_table.py` renders this",
+"table from the sweep log.  The table is the quick tier on the final tree.\n",
 "| seeded change | breaks | what it is | quick check(s) run -> exit, first reported violation |","|---|---|---|---|"]
 for mid in sorted(rows):
     meta=json.load(open('/verif/seeded/%s/meta.json'%mid))
@@ -30,18 +32,32 @@ for mid in sorted(rows):
 caught=sum(1 for mid in rows if any(rc==1 for _,rc,_ in rows[mid]))
 out.append("\n%d of %d seeded changes are reported by at least one quick check (exit 1 with a natively replayed violation)."%(caught,len(rows)))
 out.append('''
-History of this table (what the misses taught): the first sweep with the catalogue G1-G19 caught 11 of 27.  The
-misses were almost all *coverage of grammar shapes*, not of assertions: the oracles and assertions were already
-strong enough, but no catalogue grammar had a unit chain predicted before its second parent, a nonterminal followed
-only by a nullable one, a permuted translation whose middle symbol completes from two origins, an untranslated
-nonterminal with two origins, an error rule of a non-start nonterminal, three nested error contexts, or a
-three-operand rule competing with binary ones.  G20-G34, the symbolic grammar families (SG with and without
-`error'), the C10 chain family, the C11 layout variants, pre-created objects and a two-object scenario in C14/C15,
-large inputs/grammars in C17, `empty' as an object-stack operation, a long-rule redefinition scenario in C16 and
-deeper hash-table histories were added in response.  One miss was a bug of the checks themselves: hC01.c ignored
-the NEAR parameters (its NEAR jobs silently ran ALL(2)); found through C01b-1/C01b-2.  C06-2 and C15-2 are memory
-faults inside the library before any callback: by the attribution rule of 7.20 they are reported by C12, not by
-their home check.
+History of this table (what the misses taught).  Rounds 1-3 (40 changes): the first sweep with the catalogue G1-G19
+caught 11 of 27.  The misses were almost all *coverage of grammar shapes*, not of assertions: the oracles and
+assertions were already strong enough, but no catalogue grammar had a unit chain predicted before its second parent,
+a nonterminal followed only by a nullable one, a permuted translation whose middle symbol completes from two
+origins, an untranslated nonterminal with two origins, an error rule of a non-start nonterminal, three nested error
+contexts, or a three-operand rule competing with binary ones.  G20-G34, the symbolic grammar families (SG with and
+without `error'), the C10 chain family, the C11 layout variants, pre-created objects and a two-object scenario in
+C14/C15, large inputs/grammars in C17, `empty' as an object-stack operation, a long-rule redefinition scenario in
+C16 and deeper hash-table histories were added in response.  One miss was a bug of the checks themselves: hC01.c
+ignored the NEAR parameters (its NEAR jobs silently ran ALL(2)); found through C01b-1/C01b-2.
+
+Rounds 4-5 (33 changes, agents asked for less obvious spots): 17 were missed by the quick tier as it stood.  This
+time the misses were mostly *histories and sizes*: a second parse of the same object (contexts, rule-name copies
+and situation tables left over from the first), a definition read after another one had been rejected, settings
+changed after the definition, inputs with three repetitions of a phrase (goto cache), more than ten lookahead-2
+contexts, more than eight terminals, object-stack segments that are outgrown at once, a parse that runs out of
+memory with the cost flag on, an abstract node without children as the cheapest alternative.  Added in response:
+the REP input family, the second-parse mode, G35-G44, C09's level-at-definition variation, C10 family 5, C11's
+history mode, C14's predefined histories / other grammar pools / released trees, C15's settings-across-parses
+scenarios, C17's big-grammar parse, C19's long object-stack histories, and 64-byte object-stack segments for C07,
+C08 and C12.  One weakening of my own was caught by re-running the sweep (C14-2 slipped through after the
+lookahead action of hC14 had been reordered).  Memory faults inside the library (C06-2, C07c-2, C15-2) are reported
+by C12 and state left behind in a grammar object (C04c-1, C08c-2, C12c-1) by C14, following the attribution rule
+of 7.20; C03b-1 (a goto-cache change) is reported by C09's self-check of cached sets.  Two defects of the
+*unchanged* library surfaced on the way and were repaired (11.4: ec7866f through the thorough tier, ddc47a2 through
+the new C15 scenario after a sub-agent had noticed it while reading the source).
 ''')
 open(os.path.join(LD,'table_11_5.md'),'w').write("\n".join(out))
 print(caught,len(rows))
